@@ -78,8 +78,115 @@ def run(ctx):
                           (a[0], a[1], b[0], b[1], ru[:150], f2[:150]),
                           {'first': a, 'second': b, 'program': progs[k].asm(), 'regs': progs[k].regs, 'mem': progs[k].mem, 'memsize': progs[k].memsize,
                            'observed': ru, 'expected': f2, 'harness_cmd': 'reuse', 'go_case': line, 'isolation_failures': len(iso)})
+        # ---- reuse across DIFFERENT inputs: a pipelined variant runs the parsed program from another initial
+        # state (same address registers, other data), then a sequential-core variant (MVP-1..5, deterministic
+        # and independent of the calibrated domains) runs it from the real input; a value left behind in the
+        # parsed instructions (forwarded operand, ...) shows as a difference from a fresh parse.
+        r2_lines, r2_meta, r2_fresh = [], [], []
+        pool2 = [gen_program(rng, prof) for prof in ['mem', 'stld', 'ssamem', 'mixed', 'hazard', 'touched', 'tail', 'ldonly'] for _ in range(n)]
+        # forwarded-store idiom: a warm line, then producer -> store pairs (the producer's result is forwarded
+        # to the store by the control unit of MVP-6.1+)
+        from .progs import Program
+        for _ in range(n * 4):
+            q = Program()
+            q.profile = 'fwdstore'
+            q.memsize = 256
+            base = rng.choice([0, 64, 128])
+            for a in range(0, 256, 4):
+                q.mem[a] = rng.randint(-128, 127)
+            q.ins('lw', 5, 0, imm=base)
+            for j in range(rng.randint(1, 4)):
+                d = 6 + j
+                if rng.random() < 0.5:
+                    q.ins('addi', d, 5, imm=rng.randint(1, 9))
+                else:
+                    q.ins('lw', d, 0, imm=base + 4 * rng.randint(0, 5))
+                    q.ins('addi', d, d, imm=1)
+                q.ins(rng.choice(['sw', 'sw', 'sb']), rs1=0, rs2=d, imm=base + 4 * rng.randint(1, 12))
+                if rng.random() < 0.4:
+                    q.ins('addi', 20 + j, 0, imm=j)
+            if rng.random() < 0.5:
+                q.ins('ret')
+            pool2.append(q)
+        spec2, _ = S.run_spec(ctx, pool2, 'c08-s2')
+        for k, (p, s) in enumerate(zip(pool2, spec2)):
+            if s[0] != 'ok':
+                continue
+            regs2 = dict(p.regs)
+            for r in list(regs2):
+                if r not in (10, 11, 12, 13, 14, 15):
+                    regs2[r] = rng.choice([0, 1, -1, 77, 2 ** 31 - 1, rng.randint(-10 ** 6, 10 ** 6)])
+            for r in rng.sample(range(5, 32), 6):
+                if r not in (10, 11, 12, 13, 14, 15):
+                    regs2[r] = rng.randint(-10 ** 6, 10 ** 6)
+            mem2 = {a: rng.randint(-128, 127) for a in p.mem}
+            for (a, apar) in [(rng.choice(['4', '5', '6.0', '6.1', '6.1', '6.2', '6.2', '6.3', '6.3', '7.0', '7.1', '8.0']), None) for _ in range(3)]:
+                apar = rng.choice(S.pars_of(a))
+                b = rng.choice(['1', '3', '4', '5'])
+                bud = S.budget_for(s[1])
+                b_case = p.go_case(b, 1, bud).split('\t')
+                from .progs import pairs
+                r2_lines.append('\t'.join([a, str(apar), b, '1'] + b_case[2:] + [pairs(regs2), pairs(mem2)]))
+                r2_meta.append((k, (a, apar), (b, 1)))
+                r2_fresh.append((p, b, 1, bud))
+        reuse2 = C.run_lines(C.BUILD + '/harness', 'reuse2', r2_lines, ctx.work, 'c08-u2', timeout=900)
+        fresh2, fl2, fraw2 = S.run_impl(ctx, r2_fresh, 'c08-f2')
+        iso2, first_kinds = [], collections.Counter()
+        for (k, a, b), ru, fr, line in zip(r2_meta, reuse2, fraw2, r2_lines):
+            if ru is None or fr is None or '\t' not in ru:
+                continue
+            kind, second = ru.split('\t', 1)
+            first_kinds[kind] += 1
+            if kind != 'ok':
+                continue          # an aborted first run (budget, panic, error) may legitimately leave operands in flight
+            f2 = ' '.join(t for t in fr.split(' ') if not t.startswith('t='))
+            if second != f2:
+                iso2.append((k, a, b, second, f2, line))
+        for (k, a, b, ru, f2, line) in iso2[:3]:
+            found = True
+            ctx.violation('counterexample', 'a parsed program reused after a completed run on MVP-%s x%d from another initial state gives a different result on MVP-%s: reused %s | fresh %s | %s' %
+                          (a[0], a[1], b[0], ru[:150], f2[:150], pool2[k].asm().replace('|', '; ')[:300]),
+                          {'first': a, 'second': b, 'program': pool2[k].asm(), 'regs': pool2[k].regs, 'mem': pool2[k].mem, 'memsize': pool2[k].memsize,
+                           'observed': ru, 'expected': f2, 'harness_cmd': 'reuse2', 'go_case': line, 'isolation_failures': len(iso2)})
+        # ---- determinism of the cache controllers of MVP-7.0/7.1/8.0 under contention (2..4 cores): the request
+        # scripts of the C06 rigs are played twice (different processes, different sharding); completion cycle,
+        # read results and counters of each script must be identical (independent of whether results are right).
+        rig_nd, rig_n = [], 0
+        try:
+            from . import c06
+            ok_or, _ = C.ensure_oracle(ctx, 'msi', ['theories/Msi/Invariant.vo', 'theories/Msi/L3Invariant.vo'], ['Msi'])
+            if ok_or:
+                rlines = []
+                for variant in ('7.0', '7.1', '8.0'):
+                    for _ in range(700 if ctx.tier == 'quick' else 8000):
+                        cores = rng.choice([2, 3, 3, 4, 4])
+                        memsize = 8192 if variant == '8.0' else 2048
+                        rlines.append(c06.random_script(rng, variant, cores, rng.randint(3, 9), rng.randint(2, 5), memsize))
+                    for _ in range(12 if ctx.tier == 'quick' else 100):
+                        rlines.append(c06.random_script(rng, variant, rng.choice([3, 4]), rng.randint(25, 40), rng.randint(18, 28) if variant != '8.0' else rng.randint(40, 60), 8192 if variant == '8.0' else 4096))
+                ra = c06.run_cases(ctx, 'msi-rig', rlines, 'c08-rig-a', shards=16)
+                rb = c06.run_cases(ctx, 'msi-rig', rlines, 'c08-rig-b', shards=11)
+                for l, x, y in zip(rlines, ra, rb):
+                    if not x or not y or x == 'CRASH' or y == 'CRASH':
+                        continue
+                    rig_n += 1
+                    # 'snaps' counts distinct exported snapshots and moves with transient bookkeeping; not an observable of the run
+                    tx = ' '.join(w for w in x.partition(' | ')[2].split(' ') if not w.startswith('snaps='))
+                    ty = ' '.join(w for w in y.partition(' | ')[2].split(' ') if not w.startswith('snaps='))
+                    if tx != ty:
+                        rig_nd.append((l, tx, ty))
+        except Exception as e:
+            ctx.notes.append('rig determinism section skipped: %r' % (e,)) if hasattr(ctx, 'notes') else None
+        for (l, tx, ty) in rig_nd[:2]:
+            found = True
+            f = l.split('\t')
+            ctx.violation('counterexample', 'MVP-%s with %s cores: the cache controllers are not deterministic on a request script: run 1: %s | run 2: %s | script %s' %
+                          (f[0], f[1], tx[:200], ty[:200], f[-1][:300]),
+                          {'variant': f[0], 'cores': f[1], 'observed': [tx, ty], 'harness_cmd': 'msi-rig', 'go_case': l, 'nondeterministic_scripts': len(rig_nd)})
         cov = {
-            'evaluations': len(rep_lines) * (reps + 2) + 2 * len(reuse_lines),
+            'reuse_other_input': len(r2_lines), 'reuse_other_input_first_run_kinds': dict(first_kinds), 'isolation_failures_other_input': len(iso2),
+            'rig_scripts_played_twice': rig_n, 'rig_nondeterministic': len(rig_nd),
+            'evaluations': len(rep_lines) * (reps + 2) + 2 * len(reuse_lines) + 3 * len(r2_lines) + 2 * rig_n,
             'distinct_nontrivial': len(set(rep_lines)),
             'rule': 'each in-domain (program, variant, parallelism) input is run %d times in one process (30 %% of them with another machine running concurrently in a goroutine) '
                     'and twice more in other processes: (cycles, registers, memory) must be identical; each program is also parsed once and run on two machines in sequence '
